@@ -378,8 +378,9 @@ func (rn *rnode) rremove(topic []byte) error {
 		return err
 	}
 
-	// If there are no more rnodes to the next level we just visited let's remove it
-	if len(n.rnodes) == 0 {
+	// If the next level we just visited holds neither a retained message nor
+	// further levels, let's remove it
+	if n.msg == nil && len(n.rnodes) == 0 {
 		delete(rn.rnodes, level)
 	}
 
